@@ -6,7 +6,7 @@ CONSTANTS
   FieldSet <- MCFieldSet
   Admissible <- MCAdmissible
   MaxVariants = 3
-  MaxPayloadVariants = 2
+  MaxPayloadVariants = 1
   MaxFields = 1
   DiscSet <- DiscsThorough
   PayloadSet = {"P", "bool", "opt", "unit", "nz", "u64", "char", "str", "nested"}
